@@ -834,13 +834,24 @@ func (p *Program) c04IsNotFoundOf(fs []Fact, call *ssa.Call) bool {
 	return ok
 }
 
-func (p *Program) c04CheckDoneReturns(o *Obligation, fn *ssa.Function, justs []c04Justification, del *ssa.Call) {
+// dels: the delete call(s) of the object — several when the code after a merged helper was copied
+// per helper return (tail duplication); every copy is the same statement of the source.
+func (p *Program) c04CheckDoneReturns(o *Obligation, fn *ssa.Function, justs []c04Justification, dels ...*ssa.Call) {
 	var bad, found []string
 	n := 0
 	for _, rc := range p.pfReturnCases(fn) {
+		if pfDeadByFacts(rc.Facts) {
+			continue // copy of a continuation that the helper return it was made for never takes
+		}
 		at := p.IPos(rc.Ret)
 		r0 := rc.Results[0]
-		if del != nil && p.errOfCall(rc.Facts, del) == yesTri {
+		afterDelete := false
+		for _, del := range dels {
+			if del != nil && p.errOfCall(rc.Facts, del) == yesTri {
+				afterDelete = true
+			}
+		}
+		if afterDelete {
 			if !p.c04ValueFalse(rc.Facts, r0) {
 				bad = append(bad, "return at "+at+" reports done right after an error-free Delete (the object may still exist, e.g. held by a finalizer)")
 			}
@@ -958,28 +969,50 @@ func c04r5(c *Ctx) {
 			}
 		}
 		// the delete of a typed object and the read of the same object
-		var del, get *ssa.Call
+		var dels, gets []*ssa.Call
 		var obj ssa.Value
+		oneObject := true
 		for _, ws := range allWriterSites([]*ssa.Function{fn}) {
 			if ws.Verb == "Delete" {
-				del, _ = ws.Call.Instr.(*ssa.Call)
-				obj = ws.Obj
+				if del, ok := ws.Call.Instr.(*ssa.Call); ok {
+					if obj != nil && !p.sameValue(obj, ws.Obj) {
+						oneObject = false
+					}
+					dels = append(dels, del)
+					obj = ws.Obj
+				}
 			}
 		}
-		if del == nil || owner == nil {
+		if len(dels) == 0 || owner == nil {
 			o.Unknown("no Delete of the phase object / no ObjectSet accessor parameter found")
+			continue
+		}
+		if !oneObject {
+			o.Unknown("the function deletes several different objects")
 			continue
 		}
 		for _, cc := range callsIn(fn) {
 			if cv, ok := cc.Instr.(*ssa.Call); ok && isReaderGet(cc.Common) && p.sameValue(callArgs(cc.Common)[2], obj) {
-				get = cv
+				gets = append(gets, cv)
 			}
 		}
+		anyCall := func(calls []*ssa.Call, pred func(*ssa.Call) bool) bool {
+			for _, cv := range calls {
+				if pred(cv) {
+					return true
+				}
+			}
+			return false
+		}
 		justs := []c04Justification{
-			{"read of the phase object returned NotFound", func(rc ReturnCase) bool { return p.c04IsNotFoundOf(rc.Facts, get) }},
-			{"delete of the phase object returned NotFound", func(rc ReturnCase) bool { return p.c04IsNotFoundOf(rc.Facts, del) }},
+			{"read of the phase object returned NotFound", func(rc ReturnCase) bool {
+				return anyCall(gets, func(get *ssa.Call) bool { return p.c04IsNotFoundOf(rc.Facts, get) })
+			}},
+			{"delete of the phase object returned NotFound", func(rc ReturnCase) bool {
+				return anyCall(dels, func(del *ssa.Call) bool { return p.c04IsNotFoundOf(rc.Facts, del) })
+			}},
 			{"phase object is not controlled by the ObjectSet", func(rc ReturnCase) bool {
-				if get == nil || p.errOfCall(rc.Facts, get) != yesTri {
+				if !anyCall(gets, func(get *ssa.Call) bool { return p.errOfCall(rc.Facts, get) == yesTri }) {
 					return false
 				}
 				// any spelling of !metav1.IsControlledBy(obj, owner.ClientObject()); the alternatives of a
@@ -1005,7 +1038,7 @@ func c04r5(c *Ctx) {
 				return p.sameValue(e, rc.Results[1])
 			}},
 		}
-		p.c04CheckDoneReturns(o, fn, justs, del)
+		p.c04CheckDoneReturns(o, fn, justs, dels...)
 	}
 }
 
